@@ -78,6 +78,9 @@ if fid == 'F-49' and prop == 'C20':
     try: parse(w['input']).rebuild(); out(False, 'returns')
     except ValueError: out(False, 'ValueError')
     except Exception as e: out(True, 'raises %s' % type(e).__name__)
+if fid == 'F-53':
+    a, ea, _ = apply_ops(w['doc'], w['ops']); b, eb, _ = apply_ops(w['doc'], list(reversed(w['ops'])))
+    out(ea == [None, None] and eb == [None, None] and a != b, 'orders give %r / %r' % (a, b))
 if fid == 'F-37':
     text, errs, _ = apply_ops(w['doc'], w['ops'])
     out(errs == [None] and not text.lstrip().startswith('let'), 'emitted %r' % text)
